@@ -582,16 +582,19 @@ impl C02 {
     fn space(&self, tier: Tier) -> &KernelSpace {
         tier.pick(&self.quick, &self.thorough)
     }
-    /// control-flow part first, then the sequence sub-families
+    /// control-flow part first, then the sequence sub-families, then the single-transfer
+    /// sub-families (every instruction form as the reader / writer under test)
     fn map_case(&self, tier: Tier, case: u64) -> u64 {
         let sp = self.space(tier);
         let (off, n) = sp.control_part();
+        let seq: u64 = sp.parts[2].1 + sp.parts[3].1;
         if case < n {
             off + case
-        } else {
+        } else if case < n + seq {
             // seq-main and seq-callee directly precede the control part
-            let seq: u64 = sp.parts[2].1 + sp.parts[3].1;
             off - seq + (case - n)
+        } else {
+            case - n - seq
         }
     }
 
@@ -660,7 +663,7 @@ impl Property for C02 {
     }
     fn cases(&self, tier: Tier) -> u64 {
         let sp = self.space(tier);
-        sp.control_part().1 + sp.parts[2].1 + sp.parts[3].1
+        sp.count()
     }
     fn chunk(&self, _tier: Tier) -> u64 {
         1500
